@@ -116,6 +116,7 @@ class Projector:
                 "jumps": int(ctx.get("_jump_count", 0)),
                 "buf": [str(x.get("signal_name", "")) for x in (ctx.get("_buffered_signals", []) or [])],
                 "sig": str(ctx.get("_signal_name") or ""),
+                "mi": int(ctx.get("_mi_instance_count", 0)),
             }
             for t in self.c.execute("SELECT id, name, status, version FROM task_executions WHERE stage_id = ? ORDER BY id",
                                     (r["id"],)):
